@@ -11,7 +11,9 @@ int k_env_get(const char* name, unsigned nl, int has_default, const char* dflt, 
 // 3 copy sym s -> other slot, 4 call sym s, 5 destroy lib s, 6 destroy sym s.  args: bit0 = s, bit1 = t / library number
 // per step: res[k] = 0 done, 1 dl::exception with the stub's diagnostic, 2 dl::exception with another diagnostic, 3 other exception, 4 skipped (slot empty)
 int hook_snapshot(unsigned step); // provided by the harness main: records which handles are open after the step
-int dl_history(unsigned n, const int* ops, const int* args, int* res, int* callret);
+int dl_history(unsigned n, const int* ops, const int* args, int* res, int* callret, int* late);
+// ops 7 / 8 / 9: copy-ASSIGN symbol s onto the other slot's symbol, move-assign it (the source is destroyed right after), copy-assign dl object s onto the other slot's
+// late[k]: the diagnostic of the exception of step k read again at the END of the history, after more loader calls: 0 none, 1 intact, 2 changed
 }
 
 static unsigned put(char* d, unsigned cap, const std::string& s)
@@ -40,13 +42,14 @@ int k_env_get(const char* name, unsigned nl, int has_default, const char* dflt, 
     }
 }
 
-int dl_history(unsigned n, const int* ops, const int* args, int* res, int* callret)
+int dl_history(unsigned n, const int* ops, const int* args, int* res, int* callret, int* late)
 {
     using lib_t = nitro::dl::dl;
     using sym_t = nitro::dl::symbol<int(int)>;
     {
         std::unique_ptr<lib_t> lib[2];
         std::unique_ptr<sym_t> sym[2];
+        std::unique_ptr<nitro::dl::exception> kept[8];
         for (unsigned k = 0; k < n; ++k)
         {
             int s = args[k] & 1, t = (args[k] >> 1) & 1;
@@ -83,6 +86,34 @@ int dl_history(unsigned n, const int* ops, const int* args, int* res, int* callr
                     else
                         res[k] = 4;
                     break;
+                case 7:
+                    if (!sym[s])
+                        res[k] = 4;
+                    else if (sym[1 - s])
+                        *sym[1 - s] = *sym[s];
+                    else
+                        sym[1 - s] = std::make_unique<sym_t>(*sym[s]);
+                    break;
+                case 8:
+                    if (!sym[s])
+                        res[k] = 4;
+                    else
+                    {
+                        if (sym[1 - s])
+                            *sym[1 - s] = std::move(*sym[s]);
+                        else
+                            sym[1 - s] = std::make_unique<sym_t>(std::move(*sym[s]));
+                        sym[s].reset();
+                    }
+                    break;
+                case 9:
+                    if (!lib[s])
+                        res[k] = 4;
+                    else if (lib[1 - s])
+                        *lib[1 - s] = *lib[s];
+                    else
+                        lib[1 - s] = std::make_unique<lib_t>(*lib[s]);
+                    break;
                 case 5:
                     lib[s].reset();
                     break;
@@ -94,6 +125,8 @@ int dl_history(unsigned n, const int* ops, const int* args, int* res, int* callr
             catch (nitro::dl::exception& e)
             {
                 res[k] = (e.dlerror() == "bad" || e.dlerror() == "nos") ? 1 : 2;
+                if (k < 8)
+                    kept[k] = std::make_unique<nitro::dl::exception>(e); // a caller may keep the exception and report it later
             }
             catch (...)
             {
@@ -101,6 +134,9 @@ int dl_history(unsigned n, const int* ops, const int* args, int* res, int* callr
             }
             hook_snapshot(k);
         }
+        ::dlerror(); // some further loader activity before the kept exceptions are read again
+        for (unsigned k = 0; k < n && k < 8; ++k)
+            late[k] = !kept[k] ? 0 : (kept[k]->dlerror() == "bad" || kept[k]->dlerror() == "nos") ? 1 : 2;
     }
     hook_snapshot(n);
     return 0;
